@@ -316,7 +316,9 @@ func runRaceCfg(cfg raceCfg, r rng, res *result) {
 					case 22:
 						c.SetDefaultExpiration(pick(rr, []time.Duration{time.Millisecond, 3 * time.Millisecond, cache.NoExpiration}))
 					case 23:
-						if rr.intn(2) == 0 {
+						if x := rr.intn(5); x == 0 {
+							c.SetEvictedCallback(nil)
+						} else if x < 3 {
 							c.SetEvictedCallback(cb)
 						} else {
 							c.SetEvictedCallback(func(k int, v any) { verifyPayload(v, k, "evicted callback 2", res) })
